@@ -165,7 +165,11 @@ func (f *Default) deviceDataFromCliSrvName(
 		"domains", f.deviceDomains,
 	)
 
-	idStr := cliSrvName[:len(cliSrvName)-len(matchedDomain)-1]
+	// The domain has been matched against the lowercased name, the length of
+	// which may differ from that of the original one if the name is not ASCII,
+	// so don't use the lengths to find the label.  An immediate subdomain has
+	// exactly one label before the matched domain.
+	idStr, _, _ := strings.Cut(cliSrvName, ".")
 
 	// Don't wrap the error, because it's informative enough as is.
 	return f.parseDeviceData(idStr)
